@@ -639,7 +639,10 @@ nni_url_clone_inline(nng_url *dst, const nng_url *src)
 		    dst->u_static + (src->u_buffer - src->u_static);
 	}
 
-	dst->u_hostname = dst->u_buffer + (src->u_hostname - src->u_buffer);
+	if (src->u_hostname != NULL) {
+		dst->u_hostname =
+		    dst->u_buffer + (src->u_hostname - src->u_buffer);
+	}
 	dst->u_path     = dst->u_buffer + (src->u_path - src->u_buffer);
 
 	if (src->u_userinfo != NULL) {
